@@ -20,7 +20,7 @@ DEFAULT_OPTS = dict(
     ints=INT_PACKED + INT_ODD, floats=True, char=True, wchar=True, leb=True, void=True, enums=True, bits=True,
     arrays=True, expr=True, null=True, eof=True, pointers=True, nested=True, unions=True, anon=True,
     max_depth=2, max_fields=6, dynamic=True, hazard=True, multidim=True, struct_arrays=True, zero_len=True,
-    mixed_align=False, long_strings=False, null_structs=False, bits_char=False, bits_odd=False, wide_bits=False,
+    mixed_align=False, long_strings=False, null_structs=False, multidim_dyn=False, bits_char=False, bits_odd=False, wide_bits=False,
 )
 
 
@@ -275,10 +275,17 @@ def struct_type(draw, o, defs, names, depth, kind="struct", name=None, top=False
                 t = {"k": "a", "t": base, "len": ["expr", tmpl.format(n=ref), mk(ref)]}
                 if o["multidim"] and draw(st.integers(0, 7)) == 0:
                     t = {"k": "a", "t": t, "len": ["fixed", draw(st.integers(1, 2))]}
+                elif o.get("multidim_dyn") and draw(st.integers(0, 5)) == 0:
+                    # x[expr][m]: the data-dependent count is the OUTER dimension
+                    t = {"k": "a", "t": {"k": "a", "t": base, "len": ["fixed", draw(st.integers(1, 3))]}, "len": t["len"]}
             elif form == "null":
                 t = {"k": "a", "t": base, "len": ["null"]}
+                if o.get("multidim_dyn") and draw(st.integers(0, 5)) == 0:
+                    t = {"k": "a", "t": t, "len": ["fixed", draw(st.integers(1, 3))]}  # x[k][]: k terminated rows
             else:
                 t = {"k": "a", "t": base, "len": ["eof"]}
+                if o.get("multidim_dyn") and not base_dyn and draw(st.integers(0, 3)) == 0:
+                    t = {"k": "a", "t": {"k": "a", "t": base, "len": ["fixed", draw(st.integers(1, 3))]}, "len": ["eof"]}  # x[EOF][m]
                 last_dynamic_eof = True
         if t["k"] == "s" and t["n"] in INT_PACKED + INT_ODD:
             int_fields.append(fn)
